@@ -1,0 +1,113 @@
+//go:build verif
+
+package dhcpv6
+
+// Verification hooks for property C02. Accessors and injection points only (-tags verif):
+// a setter for the UDP socket sendResponse writes to (Start is not called by the harness), a
+// wrapper of the message handler, a read-only snapshot of the lease table and the legacy pools,
+// and a way to let time pass for the lease table.
+
+import (
+	"net"
+	"sort"
+	"time"
+)
+
+// VerifC02SetConn installs the UDP socket used by sendResponse.
+func (s *Server) VerifC02SetConn(c *net.UDPConn) { s.conn = c }
+
+// VerifC02ServerDUID returns the serialized server DUID.
+func (s *Server) VerifC02ServerDUID() []byte { return s.serverDUID.Serialize() }
+
+// VerifC02Handle runs the body of receiveLoop for one datagram (ParseMessage, handleMessage).
+func (s *Server) VerifC02Handle(data []byte, addr *net.UDPAddr) error {
+	msg, err := ParseMessage(data)
+	if err != nil {
+		return err
+	}
+	s.handleMessage(msg, addr)
+	return nil
+}
+
+// VerifC02Lease is a copy of one lease-table entry.
+type VerifC02Lease struct {
+	DUID     string
+	Address  net.IP
+	Prefix   *net.IPNet
+	ValidEnd time.Time
+}
+
+// VerifC02Snapshot is a read-only copy of the lease table and the legacy pools.
+type VerifC02Snapshot struct {
+	Leases         []VerifC02Lease // sorted by DUID
+	AddrAllocated  map[string]net.IP
+	AddrAvailable  []net.IP
+	PfxAllocated   map[string]*net.IPNet
+	PfxAvailable   []*net.IPNet
+	PoolNetwork    *net.IPNet
+	PrefixBase     *net.IPNet
+	DelegationBits uint8
+}
+
+func verifC02Net(n *net.IPNet) *net.IPNet {
+	if n == nil {
+		return nil
+	}
+	return &net.IPNet{IP: append(net.IP(nil), n.IP...), Mask: append(net.IPMask(nil), n.Mask...)}
+}
+
+// VerifC02Snapshot copies the binding state.
+func (s *Server) VerifC02Snapshot() VerifC02Snapshot {
+	var out VerifC02Snapshot
+	s.leasesMu.RLock()
+	for d, l := range s.leases {
+		out.Leases = append(out.Leases, VerifC02Lease{DUID: d, Address: append(net.IP(nil), l.Address...),
+			Prefix: verifC02Net(l.Prefix), ValidEnd: l.ValidEnd})
+	}
+	s.leasesMu.RUnlock()
+	sort.Slice(out.Leases, func(i, j int) bool { return out.Leases[i].DUID < out.Leases[j].DUID })
+	out.AddrAllocated = map[string]net.IP{}
+	out.PfxAllocated = map[string]*net.IPNet{}
+	if p := s.addressPool; p != nil {
+		p.mu.Lock()
+		out.PoolNetwork = verifC02Net(p.network)
+		for d, ip := range p.allocated {
+			out.AddrAllocated[d] = append(net.IP(nil), ip...)
+		}
+		for _, ip := range p.available {
+			out.AddrAvailable = append(out.AddrAvailable, append(net.IP(nil), ip...))
+		}
+		p.mu.Unlock()
+	}
+	if p := s.prefixPool; p != nil {
+		p.mu.Lock()
+		out.PrefixBase = verifC02Net(p.basePrefix)
+		out.DelegationBits = p.delegationLength
+		for d, n := range p.allocated {
+			out.PfxAllocated[d] = verifC02Net(n)
+		}
+		for _, n := range p.available {
+			out.PfxAvailable = append(out.PfxAvailable, verifC02Net(n))
+		}
+		p.mu.Unlock()
+	}
+	return out
+}
+
+// VerifC02AgeLeases lets d of time pass for the lease table: d is subtracted from every set
+// PreferredEnd / ValidEnd / LastRenew. (The server itself never compares them with the clock.)
+func (s *Server) VerifC02AgeLeases(d time.Duration) {
+	s.leasesMu.Lock()
+	for _, l := range s.leases {
+		if !l.PreferredEnd.IsZero() {
+			l.PreferredEnd = l.PreferredEnd.Add(-d)
+		}
+		if !l.ValidEnd.IsZero() {
+			l.ValidEnd = l.ValidEnd.Add(-d)
+		}
+		if !l.LastRenew.IsZero() {
+			l.LastRenew = l.LastRenew.Add(-d)
+		}
+	}
+	s.leasesMu.Unlock()
+}
